@@ -46,6 +46,7 @@ def proof_stage(rep, prop, extra_targets=()):
 
 
 VM_SAMPLE = 120
+VM_MAX_INTS = 5000
 
 
 def correspondence(rep, tag, binary, cases, label, nontrivial=None, oracle=None, known=None, impl_out=None,
@@ -85,8 +86,9 @@ def correspondence(rep, tag, binary, cases, label, nontrivial=None, oracle=None,
     # evaluated inside Coq by vm_compute, which cross-checks the extraction and the OCaml driver
     mism, _ = sfv.run_model_diff_ocaml(cases, impl)
     nvm = min(len(cases), vm_sample if vm_sample is not None else VM_SAMPLE)
-    step = max(1, len(cases) // max(1, nvm))
-    sub = list(range(0, len(cases), step))[:nvm]
+    small = [i for i in range(len(cases)) if len(cases[i]) + len(impl[i]) <= VM_MAX_INTS]   # big cases: extracted runner only
+    step = max(1, len(small) // max(1, nvm))
+    sub = small[::step][:nvm]
     vm_mism = sfv.run_model_diff("%s_%s" % (rep.prop, tag), [cases[i] for i in sub], [impl[i] for i in sub]) if sub else []
     mism = sorted(set(mism) | set(sub[i] for i in vm_mism))
     t2 = time.time()
